@@ -266,9 +266,15 @@ impl Qcow2Header {
             return Err(format!("qcow2 v{v} is not supported").into());
         }
 
-        // refcount_order is always 4 for version 2
+        // version 2 header ends at byte 72: refcount_order is always 4, there
+        // are no feature bits, and what follows is header extensions
         if header.version == 2 {
+            header.incompatible_features = 0;
+            header.compatible_features = 0;
+            header.autoclear_features = 0;
             header.refcount_order = 4;
+            header.header_length = 72;
+            header.compression_type = 0;
         }
 
         let crypt_method = header.crypt_method;
